@@ -95,7 +95,9 @@ class C15(Check):
         self.PacketIn = importlib.import_module("pox.openflow").PacketIn
         class _Con: dpid = 1
         self.con = _Con()
-        self.anchors = self._anchors_from_ast() + [("pox/openflow/__init__.py", 167, 193)]
+        # anchors are named definitions, resolved on the current source by common.AnchorCoverage (robust to line shifts)
+        self.anchors = [("pox/lib/packet/%s.py" % mod, f) for mod, funcs in self.ANCHOR_FUNCS.items() for f in funcs] + \
+                       [("pox/openflow/__init__.py", "PacketIn.parse"), ("pox/openflow/__init__.py", "PacketIn.parsed")]
         self._frames = FR.corpus()
         # offset of the IGMP / ICMP / ICMPv6 message of the corpus frames that carry one (harness's own knowledge of the layouts)
         self._l4off = {}
@@ -103,25 +105,6 @@ class C15(Check):
             if len(f) >= 34 and f[12:14] == b"\x08\x00" and f[23] in (1, 2): self._l4off[name] = 14 + (f[14] & 15) * 4
             elif len(f) >= 58 and f[12:14] == b"\x86\xdd" and f[20] == 58: self._l4off[name] = 54
         self._known = common.Findings()
-
-    def _anchors_from_ast(self):
-        import ast
-        out = []
-        for mod, funcs in self.ANCHOR_FUNCS.items():
-            rel = "pox/lib/packet/%s.py" % mod
-            tree = ast.parse(open(os.path.join(common.REPO, rel)).read())
-            defs = {}
-            for node in tree.body:
-                if isinstance(node, ast.FunctionDef): defs[node.name] = node
-                if isinstance(node, ast.ClassDef):
-                    for sub in node.body:
-                        if isinstance(sub, ast.FunctionDef): defs[node.name + "." + sub.name] = sub
-            for f in funcs:
-                n = defs.get(f)
-                if n is None: continue
-                body = [b for b in n.body if not (isinstance(b, ast.Expr) and isinstance(getattr(b, "value", None), ast.Constant) and isinstance(b.value.value, str))]
-                out.append((rel, body[0].lineno, n.end_lineno))
-        return out
 
     # ------------------------------------------------------------------ observing the real code
     def _where(self, e):
